@@ -32,8 +32,9 @@ CLAIMED = {
         text="Percentile/median position rule, the unsorted variant = sorted variant for any sort meeting the contract, the histogram bins as a "
              "partition with the membership rule ts[i-1] <= v < ts[i], per-bin count/mean/median and bin(v) = the counting rule's bin for every real v are "
              "proved in Lean 4 over any ordered field with floor (24 theorems); bit-exact correspondence against stats.h/histogram.h/store_stats on "
-             "integer and dyadic data plus an independent sorted-array oracle with exact rational positions.",
-        note=NOTE_COMMON + "std::sort/nth_element are assumed to produce a sorted permutation; make_from_exponents' pow/log threshold formula is read back from the implementation, not modelled."),
+             "integer and dyadic data plus an independent sorted-array oracle with exact rational positions. "
+             "Gap-closing round (37 further theorems, 61 in all): the body of detail::percentile (position formula, floor / ceil pair, midpoint) and the store_stats / load_stats field tables are RE-TRANSLATED from the source and the model's text is proved to be the generated one (rfl); the unsorted variant is proved correct from the partial-order contract of std::nth_element called once or twice (monitored at run time on the range as the call left it); container value types (the midpoint is taken in double for integer containers); the public constructor sorts its thresholds (both sortedness hypotheses shown necessary by witnesses replayed on the code); make_from_exponents (exponent clamp, scan, strictly increasing thresholds; base^e <= |v| < base^(e+1) over the reals) and the equidistant LinSpaced factories are modelled - no threshold list is read back from the implementation any more; the one-pass variance equals the two-pass one, slot 1 is the standard error of the mean, the 12 slots round-trip. The whole grid p = 0..100 x n = 1..500 is run exhaustively in the quick tier.",
+        note=NOTE_COMMON + "std::sort/nth_element are assumed to produce a sorted permutation; binary64 rounding, NaN values / thresholds (std::sort is undefined on them) and int overflow of the exponent for bases within 1e-6 of 1 are outside."),
     "C13": dict(
         category="proof", technique=TECH, design="DESIGN.md §4 C13",
         text="Both tuners are modelled as a small-step machine (coarse / main / done) with std::sort and the two L-BFGS runs of the surrogate tuner as oracles (the parameter spaces - linear / log10 maps, closest "
